@@ -28,7 +28,12 @@ LewisOK(o) ==
    LET n == Len(o.els) IN
    /\ \A i \in 1..n : SumFrom(o.bo[i], 1) \in StdValences(o.els[i])
    /\ \A i \in 1..n : o.charges[i] = 0 /\ o.unpaired[i] = 0
-BVerdict(o) == [id |-> o.id, structural |-> Structural(o), lewis |-> (~o.lewis) \/ LewisOK(o)]
+(* when the molecule can be written with the lowest standard valence of every atom (o.lowest: known by construction), the
+   perception must not make an atom hypervalent: a disulfide is S(II)-S(II), not S(VI) with a quintuple bond *)
+MinStd(e) == CHOOSE v \in StdValences(e) : \A w \in StdValences(e) : v <= w
+LowestOK(o) == \A i \in 1..Len(o.els) : SumFrom(o.bo[i], 1) = MinStd(o.els[i])
+BVerdict(o) == [id |-> o.id, structural |-> Structural(o), lewis |-> (~o.lewis) \/ LewisOK(o),
+                lowest |-> (~o.lowest) \/ ~LewisOK(o) \/ LowestOK(o)]
 VARIABLES bshard, bidx
 BInit == bshard = 0 /\ bidx = 0
 BNext == \/ bshard = 0 /\ bshard' \in 1..NShards /\ bidx' = 0
@@ -37,6 +42,7 @@ BSpec == BInit /\ [][BNext]_<<bshard, bidx>>
 BReport ==
    IF bidx = 0 THEN TRUE
    ELSE LET v == BVerdict(BRecs[bidx]) IN
-        IF v.structural /\ v.lewis THEN PrintT("OK|" \o JInt(v.id))
-        ELSE PrintT("BAD|" \o JObj(<< JKV("id", JInt(v.id)), JKV("structural", JBool(v.structural)), JKV("lewis", JBool(v.lewis)) >>))
+        IF v.structural /\ v.lewis /\ v.lowest THEN PrintT("OK|" \o JInt(v.id))
+        ELSE PrintT("BAD|" \o JObj(<< JKV("id", JInt(v.id)), JKV("structural", JBool(v.structural)), JKV("lewis", JBool(v.lewis)),
+                                      JKV("lowest", JBool(v.lowest)) >>))
 =============================================================================
